@@ -70,6 +70,16 @@ CHECKS = {
    "Every operation sequence over 2 prefix-related keys, 3-4 versions and 3 values (incl. all batches of <=2 entries and a reopen letter) is executed on the real stores in lock-step with a map reference; the canonical state set closes (100 store states quick), every read is compared after every step. Cloud store: all protocol-legal transactions of bounded length.",
    "Trusts redb itself and /dev/shm as a file system; torn writes inside redb are out of scope. Duplicate-key batches are compared between backends and against all-or-nothing/monotonicity only.",
    "7.1"),
+ "C04": (True, "c04", "model_checking",
+   "bounded exhaustive enumeration: setup variants x contents, both entry points on twin worlds, every single (thorough: pair of) field mutation of the raw transaction, witness scripts and semantic arguments on a fresh real signer; oracle = harness-assembled BOLT-3 transaction + secp256k1 verification",
+   "16 (12 quick) setup variants (commitment type, direction, delay pair, funding outpoint) x 7-8 contents (no HTLC, offered, received, two identical received, both, HTLC just above / below the trim limit, three HTLCs): the semantic entry point signs and every commitment / HTLC signature is verified against the transaction the harness assembles from the setup, the basepoints and the content; the raw entry point must accept that transaction on a twin signer and return the same signature; then every mutation (version, locktime, sequence, prevout txid/vout, input witness / script_sig, each output value +-1/+1000, script byte flips and truncation, swapped / dropped / duplicated / extra outputs, extra input, witness-script flips / removal / swaps, fee rate, commitment number, per-commitment point, HTLC list edits) is presented to the raw entry point: acceptance requires byte equality with the canonical transaction of the content the presented arguments imply and a signature that verifies against it.",
+   "Canonical transaction built with LDK's BOLT-3 builder from parameters assembled by the harness (not Channel's helpers); LDK and secp256k1 trusted. Panics of the signer (outputs above the channel value) are counted, not treated as acceptance.",
+   "4.1"),
+ "C05": (True, "c05", "model_checking",
+   "deviation-bounded exhaustive enumeration (d=1 quick, d=2 thorough on the tight policy) of requests on fresh real signers, under checked and wrapping arithmetic, against an independent u128 reference predicate (accepted => within all bounds)",
+   "Bases: 3 policies (default, tight with small distinct bounds, huge channel sizes) x simple / on-chain validator x chain-state use on/off x commitment type x direction x entry point (setup_channel, sign_counterparty_commitment_tx_phase2, validate_holder_commitment_tx_phase2 with harness-made valid signatures) x commitment number 0 / 1. Deviations: commitment type, both delays around the policy range, channel value around the maximum, push value, claimed fee rate, each balance at dust edges / at the values that put the implied fee rate at min-1..max+2 / at 2^32- and 2^64-wrap candidates, added HTLCs at both trim limits, around the in-flight cap and 2^63, HTLC counts around the cap, expiries around height+delay and 500000000, funding depth / close seen, commitment number. Every case is executed on a fresh signer (blocks fed through the tracker for the on-chain validator) and the reference predicate is evaluated independently.",
+   "Only accepted-and-outside-a-bound is a violation (the signer may be stricter). The claimed feerate is constrained through the trim limit only, as in the code.",
+   "4.2"),
  "C20": (True, "concur", "model_checking",
    "stateless model checking of the real Node under shuttle's runtime with an own preemption-bounded depth-first scheduler (iterative context bounding); linearizability by brute force against all sequential orders",
    "vls-core is built with --cfg vls_verif so that every Mutex of its prelude (node state, channel map, channel slots, tracker, monitor state, stores) is shuttle's. For each of ~110 scenarios (every unordered pair of 14 request kinds - commitment updates, forget/new/setup channel, balance, heartbeat, keysend, on-chain check and signature, block with the channel's close (compact and streamed), empty block, allowlist - plus the single-channel races validate||revoke, sign-holder||revoke, sign-counterparty||counterparty-revocation; thorough adds triples) every schedule of the request threads with <= 1 (2) preemptions is executed to completion on a freshly built node, and <= 2 (3) preemptions as far as the budget goes; a schedule that cannot complete is a deadlock, and the tuple (replies, fingerprint of live state and store) must equal that of some sequential order of the same requests.",
